@@ -104,7 +104,7 @@ ReverseOp(m, s) ==
 
 \* Map.Drop(seqno, pid): result [m, ok]
 DropOp(m, s, p) ==
-  IF s # m.next THEN [m |-> m, ok |-> FALSE]
+  IF (Fixed_F9 /\ ~m.valid) \/ s # m.next THEN [m |-> m, ok |-> FALSE]
   ELSE LET es == IF m.entries = <<>>
                  THEN << [first |-> Mod(s - W), count |-> W, delta |-> 0, pidDelta |-> 0] >>
                  ELSE m.entries
